@@ -50,6 +50,19 @@ def main():
         a = s.index("<!-- FINDINGS:BEGIN -->")
         b = s.index("<!-- FINDINGS:END -->") + len("<!-- FINDINGS:END -->")
         s = s[:a] + fblock + s[b:]
+    # known (recorded, not repaired) findings
+    krows = ["| property | classifier | what fails | witness |", "|---|---|---|---|"]
+    for line in open(os.path.join(VERIF, "known_findings.jsonl")):
+        if line.strip():
+            r = json.loads(line)
+            if r.get("status") == "known":
+                esc = lambda t: str(t).replace("|", "\\|").replace("\n", " ")
+                krows.append("| {} | `{}` | {} | {} |".format(r["property"], r["classifier"], esc(r.get("what", "")), esc(r.get("witness", ""))))
+    kblock = "<!-- KNOWN:BEGIN -->\n" + "\n".join(krows) + "\n<!-- KNOWN:END -->"
+    if "<!-- KNOWN:BEGIN -->" in s:
+        a = s.index("<!-- KNOWN:BEGIN -->")
+        b = s.index("<!-- KNOWN:END -->") + len("<!-- KNOWN:END -->")
+        s = s[:a] + kblock + s[b:]
     if "<!-- NUMBERS:BEGIN -->" in s:
         a = s.index("<!-- NUMBERS:BEGIN -->")
         b = s.index("<!-- NUMBERS:END -->") + len("<!-- NUMBERS:END -->")
